@@ -37,7 +37,7 @@ ASSUMPTIONS = [
     "'the end marker' = EI followed by a byte for which bytes.isspace() is true; inline data is written as ID<space>data<LF>EI<LF> and does not end in CR",
     "export formats limited to those that do not need Pillow (DCT pass-through, 1-bit / 8-bit gray / 8-bit RGB bitmaps)",
 ]
-PROBES = ["ASCII85 inline data contains EI + white space", "two inline images with the same data bytes", "dct data continues behind the EOI marker", "CR after ID and data starting with LF", "dct behind further filters", "same XObject drawn twice", "inline image ending at the ASCII85 marker", "inline image", "xobject image", "gray8", "rgb8", "1bit", "dct", "filter chain", "unfiltered", "row padding needed", "boundary placed in inline markers", "contents split after image", "inline data contains EI", "preexisting export name", "two images same name", "bmp exported", "jpg exported"]
+PROBES = ["page with shifted MediaBox or /Rotate", "one ImageWriter for two documents", "ASCII85 inline data contains EI + white space", "two inline images with the same data bytes", "dct data continues behind the EOI marker", "CR after ID and data starting with LF", "dct behind further filters", "same XObject drawn twice", "inline image ending at the ASCII85 marker", "inline image", "xobject image", "gray8", "rgb8", "1bit", "dct", "filter chain", "unfiltered", "row padding needed", "boundary placed in inline markers", "contents split after image", "inline data contains EI", "preexisting export name", "two images same name", "bmp exported", "jpg exported"]
 TIERS = {
     "quick": {"batches": 16, "runs": 450, "budget_s": 50},
     "thorough": {"batches": 128, "runs": 500, "budget_s": 1200},
@@ -144,7 +144,8 @@ def name_bytes(nm):
     return bytes(s.out)
 
 
-def build_document(t, ctx, images, page_of, with_images=True):
+def build_document(t, ctx, images, page_of, with_images=True, geom=(0, 0, 0)):
+    ox, oy, rot = geom  # page geometry: MediaBox origin and /Rotate (everything is placed relative to the origin)
     objects = {}
     nxt = [3]
 
@@ -162,7 +163,7 @@ def build_document(t, ctx, images, page_of, with_images=True):
     names = []
     for i, im in enumerate(images):
         pg = page_of[i]
-        place = b"q %d 0 0 %d %d %d cm " % (im["w"], im["h"], 20 + 45 * i, 500)
+        place = b"q %d 0 0 %d %d %d cm " % (im["w"], im["h"], ox + 20 + 45 * i, oy + 500)
         if not with_images:
             seg = b""
         elif im["inline"]:
@@ -198,8 +199,8 @@ def build_document(t, ctx, images, page_of, with_images=True):
             names.append(nm.decode("latin-1"))
             if im.get("twice"):
                 # the same XObject painted a second time: one more image item and one more exported file
-                seg += b"q %d 0 0 %d %d %d cm " % (im["w"], im["h"], 20 + 45 * i, 300) + name_bytes(nm) + b" Do Q "
-        text = b"BT /F1 9 Tf %d %d Td (after%d) Tj ET\n" % (20 + 45 * i, 480, i)
+                seg += b"q %d 0 0 %d %d %d cm " % (im["w"], im["h"], ox + 20 + 45 * i, oy + 300) + name_bytes(nm) + b" Do Q "
+        text = b"BT /F1 9 Tf %d %d Td (after%d) Tj ET\n" % (ox + 20 + 45 * i, oy + 480, i)
         if im.get("notext"):
             text = b""  # the next image follows directly
         parts[pg].append(seg)
@@ -215,7 +216,7 @@ def build_document(t, ctx, images, page_of, with_images=True):
             pieces = [content[:off], content[off:]]
             ctx.probe("contents split after image")
         refs = [alloc(docs.content_stream(p)) for p in pieces]
-        kids.append(alloc({b"Type": Name(b"Page"), b"Parent": Ref(2, 0), b"MediaBox": [0, 0, 612, 792], b"Contents": refs if len(refs) > 1 else refs[0], b"Resources": {b"Font": {b"F1": font}, b"XObject": xobjs[pg]}}))
+        kids.append(alloc({b"Type": Name(b"Page"), b"Parent": Ref(2, 0), b"MediaBox": [ox, oy, ox + 612, oy + 792], b"Rotate": rot, b"Contents": refs if len(refs) > 1 else refs[0], b"Resources": {b"Font": {b"F1": font}, b"XObject": xobjs[pg]}}))
     objects[1] = {b"Type": Name(b"Catalog"), b"Pages": Ref(2, 0)}
     objects[2] = {b"Type": Name(b"Pages"), b"Kids": kids, b"Count": len(kids)}
     return docs.build_pdf(objects, 1).getvalue(), [m for m in marks if m > 0], names
@@ -273,10 +274,40 @@ def read_bmp(b):
     return w, abs(h), bpp, rows
 
 
-def export_child(data, outdir, mode):
-    seams.FSMON.start()
+def export_child(data, outdir, mode, sibling=None):
     err = None
     out = io.BytesIO()
+    if sibling is not None:
+        # one ImageWriter serves two documents in turn (a batch job): the sibling has the same object numbers but other
+        # kinds of images; only the second document's export is monitored and judged
+        from pdfminer.converter import TextConverter, XMLConverter
+        from pdfminer.image import ImageWriter
+        from pdfminer.layout import LAParams
+        from pdfminer.pdfinterp import PDFPageInterpreter, PDFResourceManager
+        from pdfminer.pdfpage import PDFPage
+
+        iw = ImageWriter(outdir)
+
+        def run_doc(d, fp):
+            rm = PDFResourceManager()
+            dev = (XMLConverter if mode == "xml" else TextConverter)(rm, fp, codec="utf-8", laparams=LAParams(), imagewriter=iw)
+            interp = PDFPageInterpreter(rm, dev)
+            for page in PDFPage.get_pages(io.BytesIO(d)):
+                interp.process_page(page)
+            dev.close()
+
+        try:
+            run_doc(sibling, io.BytesIO())
+        except Exception:
+            pass
+        seams.FSMON.start()
+        try:
+            run_doc(data, out)
+        except Exception as e:
+            err = "%s@%s: %r" % (type(e).__name__, where(e), e)
+        ev = seams.FSMON.stop()
+        return {"events": [list(map(str, e)) for e in ev], "err": err, "out": out.getvalue().decode("utf-8", "replace")}
+    seams.FSMON.start()
     try:
         HL.extract_text_to_fp(io.BytesIO(data), out, output_type=mode, codec="utf-8", output_dir=outdir)
     except Exception as e:
@@ -321,12 +352,17 @@ def run(tape, ctx, item=None):
     if 1 in page_of:
         page_of = [p if 0 in page_of else 0 for p in page_of]
     page_of = sorted(page_of)
-    data, marks, names = build_document(t, ctx, images, page_of)
+    geom = (0, 0, 0)
+    if t.coin(30, 100, "geom"):
+        # the page need not start at the origin nor be upright: images are images wherever they are painted
+        geom = (t.pick([0, 300, -200, 1000], "geom.ox"), t.pick([0, 300, -100, 2000], "geom.oy"), t.pick([0, 90, 180, 270], "geom.rot"))
+        ctx.probe("page with shifted MediaBox or /Rotate")
+    data, marks, names = build_document(t, ctx, images, page_of, geom=geom)
     # ---------------------------------------------------------------- reading under chunk schedules
     scen = []
     glyphs_ref = None
     if any(im["inline"] for im in images):
-        plain, _, _ = build_document(core_null_tape(), ctx_null(), images, page_of, with_images=False)
+        plain, _, _ = build_document(core_null_tape(), ctx_null(), images, page_of, with_images=False, geom=geom)
         try:
             pg = list(HL.extract_pages(io.BytesIO(plain), laparams=None))
             glyphs_ref = [(c.get_text(), tuple(c.matrix)) for p_ in pg for c in items_of(p_, L.LTChar)]
@@ -391,10 +427,23 @@ def run(tape, ctx, item=None):
         if len([n for n in names if n is not None]) != len({n for n in names if n is not None}):
             ctx.probe("two images same name")
         mode = t.pick(["text", "xml"], "out.mode")
-        res = core.fork_call(lambda: export_child(data, outdir, mode), timeout=60)
+        sibling = None
+        if t.coin(20, 100, "shared.writer"):
+            ctx.probe("one ImageWriter for two documents")
+            other = []
+            for im in images:
+                o = dict(im)
+                if im["kind"] == "dct":
+                    o.update(kind="gray8", bits=8, cs="DeviceGray", w=2, h=2, rowlen=2, samples=b"\x10\x20\x30\x40", data=b"\x10\x20\x30\x40", chain=[])
+                else:
+                    blob = b"\xff\xd8\xff\xe0sibling\xff\xd9"
+                    o.update(kind="dct", bits=8, cs="DeviceRGB", samples=blob, data=blob, chain=["DCTDecode"])
+                other.append(o)
+            sibling = build_document(core_null_tape(), ctx_null(), other, page_of, geom=geom)[0]
+        res = core.fork_call(lambda: export_child(data, outdir, mode, sibling), timeout=60)
         if "error" in res:
             raise core.HarnessError("C18 export child failed: %s" % res["error"])
-        cfg = "export mode=%s outdir=%s images=%s" % (mode, st, [(im["kind"], "inline" if im["inline"] else "xobject", im["w"], im["h"], im["chain"]) for im in images])
+        cfg = "export mode=%s outdir=%s%s images=%s" % (mode, st, " writer-shared-with-a-sibling-document" if sibling is not None else "", [(im["kind"], "inline" if im["inline"] else "xobject", im["w"], im["h"], im["chain"]) for im in images])
         if res["err"]:
             devs.append(Dev("C18:export:raise:%s" % res["err"].split(":")[0], "%s; %s" % (res["err"].replace(sc.top, "<SCRATCH>"), cfg)))
         writes = [e[1] for e in res["events"] if e[0] == "open" and any(c in e[2] for c in "wax+")]
